@@ -200,6 +200,9 @@ pub fn cmp_pool() -> Vec<Value> {
         Value::Float(-1.0), Value::Float(0.5), Value::Float(1.5), Value::Float(2.0), Value::Float(9007199254740992.0), Value::Float(9007199254740994.0),
         Value::Float(-9007199254740992.0), Value::Float(9223372036854775808.0), Value::Float(-9223372036854775808.0), Value::Float(9223372036854774784.0),
         Value::Float(18446744073709551616.0), Value::Float(18446744073709549568.0), Value::Float(1e300), Value::Float(-1e300), Value::Float(5e-324),
+        // non-integers on both sides of zero next to the integers they truncate / round to
+        Value::Float(-1.5), Value::Float(-0.5), Value::Float(-2.5), Value::Float(-3.25), Value::Float(2.5), Value::Float(0.25), Value::Int(-2), Value::Int(-3), Value::Int(3), Value::UInt(3),
+        Value::Float(-2251799813685248.5), Value::Int(-2251799813685248), Value::Int(-2251799813685249), Value::Float(2251799813685248.5), Value::Int(2251799813685248), Value::UInt(2251799813685249),
         s(""), s("a"), s("b"), s("ab"), s("aa"), s("B"), s("é"), s("z"), s("🐱"), s("\u{ffff}"), s("1"),
         Value::Bool(false), Value::Bool(true), Value::Null,
         Value::Bytes(Arc::new(vec![])), Value::Bytes(Arc::new(vec![97])), Value::Bytes(Arc::new(vec![255])),
@@ -331,7 +334,7 @@ pub fn cmp_table(out: &mut dyn Write) -> usize {
 
 fn key_alphabet() -> Vec<Value> {
     let s = |x: &str| Value::String(Arc::new(x.to_string()));
-    vec![Value::Int(1), Value::UInt(1), Value::UInt(2), Value::Int(-1), Value::UInt(0), Value::Int(0), Value::Bool(true), s("a"), s("b"), s("k1"), s("size")]
+    vec![Value::Int(1), Value::UInt(1), Value::UInt(2), Value::Int(-1), Value::UInt(0), Value::Int(0), Value::Bool(true), s("a"), s("b"), s("k1"), s("size"), s("1"), s("true")]
 }
 
 fn to_key(v: &Value) -> Key {
@@ -360,7 +363,7 @@ pub fn drive_c14(seed: u64, thorough: bool, out: &mut dyn Write) -> usize {
         }
         let keys: Vec<&Value> = (0..n).filter(|i| mask & (1 << i) != 0).map(|i| &alpha[i]).collect();
         // quick tier: all maps with <= 2 keys, a seeded half of the larger ones
-        if !thorough && keys.len() > 2 && !rng.chance(1, 2) {
+        if !thorough && keys.len() > 2 && !rng.chance(1, 4) {
             continue;
         }
         let mut hm = HashMap::new();
@@ -395,7 +398,7 @@ pub fn drive_c14(seed: u64, thorough: bool, out: &mut dyn Write) -> usize {
                 }
             }
             if let Value::String(s) = q {
-                if s.chars().all(|c| c.is_ascii_alphanumeric()) {
+                if s.chars().all(|c| c.is_ascii_alphanumeric()) && s.chars().next().map_or(false, |c| c.is_ascii_alphabetic()) && !["true", "false", "null", "in"].contains(&s.as_str()) {
                     let src = format!("m.{}", s);
                     let o = prog_apply(&src, &vars);
                     // "self": the field is also the name of a registered function (a key still wins)
@@ -425,12 +428,30 @@ pub fn drive_c14(seed: u64, thorough: bool, out: &mut dyn Write) -> usize {
             let o = prog_apply(&src, &[]);
             e.rec("idx", "lit", &lv, &iv, &src, o);
         }
-        for x in [Value::Int(10), Value::UInt(10), Value::Float(11.0), Value::Int(99), Value::String(Arc::new("a".into())), Value::Null] {
+        for x in [Value::Int(10), Value::UInt(10), Value::Float(11.0), Value::Float(10.0), Value::Float(12.5), Value::UInt(12), Value::Int(99), Value::String(Arc::new("a".into())), Value::String(Arc::new("10".into())), Value::Null] {
             let vars = vec![("l".to_string(), lv.clone()), ("x".to_string(), x.clone())];
             let o = prog_apply("x in l", &vars);
             e.rec("in", "var", &x, &lv, "x in l", o);
             let o = prog_apply("l.contains(x)", &vars);
             e.rec("contains", "var", &lv, &x, "l.contains(x)", o);
+        }
+    }
+    // membership across numeric kinds: lists of doubles / uints / mixed, queried by every kind
+    for lv in [vec![Value::Float(1.0), Value::Float(2.0)], vec![Value::UInt(1), Value::UInt(2)], vec![Value::Int(1), Value::Float(2.0), Value::UInt(3)], vec![Value::Float(2.5), Value::Float(f64::NAN)],
+               vec![Value::String(Arc::new("1".into())), Value::Int(2)], vec![Value::Bool(true), Value::Int(1)]] {
+        let lv = Value::List(Arc::new(lv));
+        for x in [Value::Int(1), Value::Int(2), Value::Int(3), Value::UInt(2), Value::UInt(3), Value::Float(1.0), Value::Float(2.0), Value::Float(3.0), Value::Float(2.5), Value::Float(f64::NAN),
+                  Value::String(Arc::new("1".into())), Value::Bool(true)] {
+            let vars = vec![("l".to_string(), lv.clone()), ("x".to_string(), x.clone())];
+            for (op, src, a, b) in [("in", "x in l", &x, &lv), ("contains", "l.contains(x)", &lv, &x)] {
+                let o = prog_apply(src, &vars);
+                e.rec(op, "var", a, b, src, o);
+            }
+            if let (Some(ll), Some(xl)) = (lit_of(&lv), lit_of(&x)) {
+                let src = format!("{} in {}", xl, ll);
+                let o = prog_apply(&src, &[]);
+                e.rec("in", "lit", &x, &lv, &src, o);
+            }
         }
     }
     // additive laws on random strings and lists: a + b, size(a + b) against the parts
